@@ -157,6 +157,18 @@ def check_string(ctx, s, sep=None):
         if got != want:
             _fail('remove-' + comp, case, 'emptying %s of %r gives %r, '
                   'expected %r' % (comp, s, got, want))
+        elif comp == 'cat' and parts['gf'] != '--':
+            # an emptied category stays empty whatever the flags say
+            try:
+                got2 = T.format_label(q, always_label=True)
+            except Exception as exc:
+                _fail('format-raises', case, 'always_label after emptying '
+                      'the category: %r' % (exc,))
+                continue
+            if got2 != want:
+                _fail('remove-cat', case, 'emptying the category of %r and '
+                      'formatting with always_label gives %r, expected %r'
+                      % (s, got2, want))
     nontriv = len(s) >= 2 and any(c in s for c in "-=#'*")
     ctx.case('%s|%s' % (s, sep), nontrivial=nontriv)
 
